@@ -315,3 +315,22 @@ Definition before (a b : lib) (order : list lib) : bool :=
   | Some i, Some j => Nat.ltb i j
   | _, _ => false
   end.
+
+(* ---- SPEC: the independent reading of a node's children (no loading algorithm involved): an
+   instance is what its references resolve to in the libraries; an instance_node is the node of
+   the group carrying that id *)
+Fixpoint node_uid (nodes : list tnode) (t : ident) : option uid :=
+  match nodes with
+  | [] => None
+  | n :: r => if N.eqb t (n_id n) then Some (n_uid n) else node_uid r t
+  end.
+
+Definition read_child (o : objs) (nodes : list tnode) (c : nchild) : option bnd :=
+  match c with
+  | NInst r mats =>
+      match resolve o r, omapM (resolve o) mats with
+      | Ok u, Ok ms => Some (BInst u ms)
+      | _, _ => None
+      end
+  | NNode t h => if h then option_map BNode (node_uid nodes t) else None
+  end.
